@@ -375,6 +375,27 @@ theorem rxWire_spec (sw : Sw) (hr : RulesOk sw.table) (f : Frame) (hw : f.WF) (i
       rfl
     · simp [ha, dropFrame]
 
+/-- a well-formed packet object handed to `rx_packet` without its wire bytes: the byte counter moves by the length of its
+wire form, a table miss sends that wire form -/
+theorem rxObj_spec (sw : Sw) (hr : RulesOk sw.table) (f : Frame) (hw : f.WF) (inPort : Nat) :
+    rxObj {} sw f inPort =
+      .ok (if accepts sw f inPort then
+             sw.withStats (tally (bumpRx sw inPort (serF f).length).stats (rxObjOuts sw f inPort))
+           else sw, rxObjOuts sw f inPort) := by
+  unfold rxObj rxThen accepts rxObjOuts accepts
+  rcases Option.eq_none_or_eq_some (findPort sw.ports inPort) with hf | ⟨p, hf⟩
+  · simp [hf, dropFrame]
+  · simp only [hf]
+    by_cases ha : rxAccepts sw p f = true
+    · simp only [ha, Bool.not_true, Bool.false_eq_true, if_false, if_true, packFrame_ser f hw]
+      have := (lookupPacket_spec 7 sw hr (bumpRx sw inPort (serF f).length).stats f hw inPort none).1
+      rw [bumpRx_withStats] at this ⊢
+      simp only [withStats_stats] at this ⊢
+      have e : run {} depth = run {} (7 + 1) := rfl
+      rw [e, this]
+      rfl
+    · simp [ha, dropFrame]
+
 /-! ## every emitted frame is the wire form of a well-formed frame (so its lengths and checksums are valid) -/
 
 /-- the log's frames all carry `serF` of some well-formed frame -/
